@@ -762,6 +762,44 @@ def check_defaults(ctx, nd):
                  "0 <= threshold_gate < 1 and route_inhibit > 0", where="thalamus-defaults")
 
 
+def check_parameter_placement(ctx):
+    """each documented strength reaches its documented place: `mutual_inhibit` is the inhibition between the
+    actions, `route_inhibit` the inhibition a gate exerts on its channel (distinct non-default values, so that a
+    mix-up of the two cannot hide behind the suppression margin of a particular simulation)"""
+    import nengo
+    import nengo_spa as spa
+    from nengo.utils.numpy import is_array_like  # noqa: F401
+    for n, mi, ri in ((2, 1.75, 2.5), (3, 0.5, 4.0), (4, 2.25, 1.25)):
+        case = {"op": "parameter-placement", "actions": n, "mutual_inhibit": mi, "route_inhibit": ri}
+        ctx.count(f"placement {n} {mi} {ri}", nontrivial=True, branch="parameter-placement")
+        try:
+            with spa.Network() as net:
+                th = spa.Thalamus(n, mutual_inhibit=mi, route_inhibit=ri)
+                bias = nengo.Node([1])
+                th.construct_gate(0, bias)
+                ch_s = th.construct_channel(spa.Scalar().input, spa.types.TScalar)
+                th.connect_gate(0, ch_s)
+                voc = spa.Vocabulary(16)
+                ch_p = th.construct_channel(spa.State(voc).input, spa.types.TVocabulary(voc))
+                th.connect_gate(0, ch_p)
+                last = th.gate_out_connections[0]
+            rec = [c for c in th.connections if c.pre_obj is th.actions.output and c.post_obj is th.actions.input]
+            want_rec = (np.eye(n) - 1) * mi
+            got_rec = None if len(rec) != 1 else np.asarray(rec[0].transform.init if hasattr(rec[0].transform, "init") else rec[0].transform, float)
+            if got_rec is None or got_rec.shape != want_rec.shape or not np.array_equal(got_rec, want_rec):
+                ctx.fail(case, None if got_rec is None else got_rec.tolist(), want_rec.tolist(), where="mutual-inhibition-strength")
+            gouts = [c for c in net.all_connections if c.pre_obj is th.gates[0] and c is not None and c.post_obj is not th.gates[0]]
+            for c in gouts:
+                tr = np.asarray(c.transform.init if hasattr(c.transform, "init") else c.transform, float)
+                if tr.size == 0 or not np.all(tr == -ri):
+                    ctx.fail(dict(case, connection=str(c)[:80]), sorted(set(np.round(tr.ravel(), 6).tolist()))[:4], -ri,
+                             where="route-inhibition-strength")
+            if len(gouts) < 2:
+                ctx.fail(case, f"{len(gouts)} gate -> channel connections", "one per connected channel", where="route-inhibition-strength")
+        except Exception as e:  # noqa: BLE001
+            ctx.fail(case, f"{type(e).__name__}: {e}"[:160], "the thalamus builds with explicit strengths", where="thalamus-builds")
+
+
 # ---------------------------------------------------------------------------------------------------
 # part (b): seeded simulations (validation only)
 # ---------------------------------------------------------------------------------------------------
@@ -900,6 +938,7 @@ def run(ctx):
         return
 
     check_defaults(ctx, nd)
+    check_parameter_placement(ctx)
     malformed_cases(ctx, nd)
     n_struct = 260 if ctx.tier == "quick" else 2000
     for idx in range(n_struct):
